@@ -90,7 +90,17 @@ var (
 	errPipe       = &simError{msg: "simnet: broken pipe"}
 	errClosed     = net.ErrClosed
 	errRefused    = &simError{msg: "simnet: connection refused"}
+	// the injected error of runs drawn with plain_err: no Timeout/Temporary methods, i.e. not a net.Error
+	// (io.ErrClosedPipe of net.Pipe, crypto/tls alerts and custom transports are of that sort)
+	errInjectedPlain = errors.New("simnet: injected transport error (not a net.Error)")
 )
+
+func (s *Sim) injErr() error {
+	if s.cfg.PlainErr {
+		return errInjectedPlain
+	}
+	return errInjected
+}
 
 const tapMax = 8 << 20
 const callLogCap = 1 << 15
@@ -664,7 +674,7 @@ func (c *SimConn) setDl(t time.Time, rd, wr bool, fault int) error {
 		return errClosed
 	}
 	if fault != 0 && fault != fHang {
-		return errInjected
+		return s.injErr()
 	}
 	if rd {
 		c.rdl = t
@@ -905,7 +915,7 @@ func (s *Sim) apply(r *parkRec) {
 			c.out.wclosed = true
 			c.in.rclosed = true
 			if r.fault != 0 && r.fault != fHang {
-				r.resErr = errInjected
+				r.resErr = s.injErr()
 				r.fault = fCloseErr
 			}
 		}
@@ -976,7 +986,7 @@ func (s *Sim) applyRead(r *parkRec, now time.Duration) {
 			r.resErr = io.EOF
 		default:
 			r.fault = fErr
-			r.resErr = errInjected
+			r.resErr = s.injErr()
 		}
 		c.readBroken = r.resErr
 		return
@@ -1098,13 +1108,13 @@ func (s *Sim) applyWrite(r *parkRec, now time.Duration) {
 				}
 			}
 			r.resN = n
-			r.resErr = errInjected
+			r.resErr = s.injErr()
 			if r.fault == fShortTimeout {
 				r.resErr = errInjTimeout
 			}
 		default:
 			r.fault = fErr
-			r.resErr = errInjected
+			r.resErr = s.injErr()
 		}
 		return
 	}
